@@ -1054,6 +1054,11 @@ integer_class mp_primorial(unsigned long n);
 class mp_randstate
 {
 public:
+    // every state starts from another seed (like the GMP states, which are
+    // seeded with std::rand()): algorithms that retry with a fresh state
+    // after an unlucky draw would repeat the same draw forever otherwise
+    mp_randstate() : _twister(static_cast<uint32_t>(std::rand())) {}
+
     // returns a uniformly distributed random integer between 0 and a-1,
     // inclusive
     void urandomint(integer_class &res, const integer_class &a)
